@@ -225,12 +225,19 @@ func runEM(c *Case, pool tp.ThreadPool) {
 			h.Ps = append(h.Ps, row)
 		}
 		c.Trace = append(c.Trace, h)
+		if len(c.Trace) > 300 {
+			panic("EM driver does not stop (likelihood NaN or change never below epsilon)")
+		}
 	}}
 	var err error
 	if c.Summ {
 		var e *se.DiscreteMixtureEstimator
 		if e, err = se.NewDiscreteMixtureEstimator(ffs(c.W0), ests, c.Eps.f(), c.MaxSteps, hook); err == nil {
-			err = e.EstimateOnData(vec(xs), nil, pool)
+			// EstimateOnData is inherited from MixtureEstimator and would install the plain data set:
+			// the summarized (value, count) data set is only used through SetData + Estimate
+			if err = e.SetData(vec(xs), len(xs)); err == nil {
+				err = e.Estimate(nil, pool)
+			}
 		}
 	} else {
 		var e *se.MixtureEstimator
@@ -240,6 +247,23 @@ func runEM(c *Case, pool tp.ThreadPool) {
 	}
 	if err != nil {
 		c.Err = true
+	}
+	// a component without any responsibility mass (sum of its weights = 0) makes its estimator return NaN
+	// parameters without an error, and every later iteration NaN: outside the property's quantifier
+	// (weights with positive total); counted separately, not compared
+	for t, h := range c.Trace {
+		if t == 0 {
+			continue
+		}
+		for _, row := range h.Ps {
+			for _, v := range row {
+				if math.IsNaN(v.f()) {
+					c.Err = true
+					c.Tag += "|em-empty-component-nan"
+					return
+				}
+			}
+		}
 	}
 }
 
@@ -695,6 +719,9 @@ func main() {
 	for _, c := range cs {
 		execute(c)
 		if c.Kind == "em" && c.Err {
+			if strings.Contains(c.Tag, "em-empty-component-nan") {
+				hist["em-empty-component-nan(skipped)"]++
+			}
 			hist["em-error(skipped)"]++
 			continue
 		}
